@@ -163,6 +163,12 @@ fn scenario(case: Json, result: Arc<StdMutex<(Outcome, LogHash)>>, tol: Tolerate
                     "eor" if up => {
                         sh.tables.drop_stale_families(addr, &fams);
                     }
+                    "softin" => {
+                        // the operator switches the import policy and soft-resets this peer inbound:
+                        // every path of the peer is re-evaluated and its post-policy state re-announced
+                        sh.tables.import_policy.store(if op.at(2).as_bool() { Some(import_policy()) } else { None });
+                        sh.tables.soft_reset_in(addr);
+                    }
                     _ => {
                         *counts.entry("op.skipped-in-this-state".into()).or_insert(0) += 1;
                         continue;
@@ -456,12 +462,13 @@ impl Check for SubscribeInterleavings {
                 continue;
             }
             let w = rng.below(writers);
-            match rng.weighted(&[50, 20, 5, if gr { 5 } else { 0 }, 5, if gr { 5 } else { 0 }]) {
+            match rng.weighted(&[50, 20, 5, if gr { 5 } else { 0 }, 5, if gr { 5 } else { 0 }, 6]) {
                 0 => ops.push(jarr![w, "ins", rng.below(N_PFX), rng.below(3), if rng.chance(1, 5) { 1u64 } else { 0u64 }]),
                 1 => ops.push(jarr![w, "rm", rng.below(N_PFX), if rng.chance(1, 5) { 1u64 } else { 0u64 }]),
                 2 => ops.push(jarr![w, "down"]),
                 3 => ops.push(jarr![w, "gdown"]),
                 4 => ops.push(jarr![w, "up"]),
+                6 => ops.push(jarr![w, "softin", rng.coin()]),
                 _ => ops.push(jarr![w, "eor"]),
             }
         }
@@ -503,7 +510,7 @@ impl Check for SubscribeInterleavings {
 
     fn info(&self) -> CheckInfo {
         CheckInfo {
-            rule: "1-3 writer threads (one peer each: up, insert, remove, hard down, graceful down, End-of-RIB purge) and 1-2 subscriber threads (wait, subscribe with snapshot, unsubscribe) over a TableManager with 1-4 shards and an optional import policy, executed under shuttle's random or PCT scheduler (one schedule per seed; scheduling points at every shard-lock acquisition, after every subscriber-list load and after the registration); the subscriber decides which peers are up the way BmpClient::serve does. distinct = hash of the (thread, op) execution order; non-trivial = a subscription was compared with the RIB for a peer that was up".into(),
+            rule: "1-3 writer threads (one peer each: up, insert, remove, hard down, graceful down, End-of-RIB purge, import policy switched with soft reset IN) and 1-2 subscriber threads (wait, subscribe with snapshot, unsubscribe) over a TableManager with 1-4 shards and an optional import policy, executed under shuttle's random or PCT scheduler (one schedule per seed; scheduling points at every shard-lock acquisition, after every subscriber-list load and after the registration); the subscriber decides which peers are up the way BmpClient::serve does. distinct = hash of the (thread, op) execution order; non-trivial = a subscription was compared with the RIB for a peer that was up".into(),
             components_real: vec!["TableManager::{subscribe, unsubscribe, insert_route, remove_route, unregister_peer, drop_stale_families, peer_up, peer_down} and TableShard notify_* / disconnected / mark_stale / drop_stale".into(), "table::Table (insert, remove, drop, restale, drop_stale, iter_reach, iter_reach_post) and the import policy evaluator".into(), "arc_swap subscriber list, tokio unbounded channels".into()],
             components_stubbed: vec!["session tasks reduced to their TableManager call order (established flag, register, PeerUp / flag, unregister, PeerDown)".into(), "BmpClient::serve reduced to its fold rules (the real client runs in tier D)".into(), "std::sync::Mutex replaced by shuttle::sync::Mutex (that is the seam)".into()],
             assumptions: vec!["a subscriber discards what it learnt of a peer when that peer's PeerDown arrives (RFC 7854 section 4.9); routes retained as stale for a restarting peer therefore may be unknown to it, but nothing it knows may be absent from the RIB".into()],
